@@ -599,7 +599,7 @@ class AioWorld(WorldBase):
             return True
         guard = self.scenario.get("guards", {}).get(kind)
         if guard is not None:  # scenario-defined pseudo event: enabled when its predicate holds, firing is a no-op
-            return bool(guard(self))
+            return bool(guard(self, ev))
         raise HarnessError(f"unknown event {ev!r}")
 
     def fire(self, ev: tuple) -> None:
